@@ -5,6 +5,7 @@ CONSTANTS
   Alphabet = {1, 45, 48, 97, 255}
   Kinds = {"commit", "tag", "tree", "blob"}
   EmptyLine = 0
+  Part = 0
   Edits = FALSE
 INVARIANT WellFormed
 INVARIANT TreeSorted
